@@ -183,7 +183,11 @@ let spec_oracle (c : cfg) (bps : int list) (cmds : string) (impl : string) (mode
         obs := rest;
         let v = String.sub o 5 (String.length o - 5) in
         if v = "ABORT" then fail "the error of an aborted parse was received"
-        else if v = "disc" || v = "norx" || v = "TIMEOUT" then ()
+        else if v = "TIMEOUT" then begin
+          if static && !started && !nrecv <= !conts && !idx < List.length expected then
+            fail "recv() got nothing although the debugger was not waiting for a continue and the parse has more to report"
+        end
+        else if v = "disc" || v = "norx" then ()
         else begin
           incr nrecv;
           if static && !started then begin
@@ -209,6 +213,22 @@ let spec_oracle (c : cfg) (bps : int list) (cmds : string) (impl : string) (mode
         lastp := pt end;
       if not same then agree := false) tr;
   !err
+
+(* for each entry of the controller into run() with a live handle: (index of that step in the schedule, drained flag) *)
+let run_entries fixed cap (c : cfg) bps cmds sched : (int * bool) list =
+  let cf = config fixed cap in
+  let s = ref (M.init (cmds_of c cmds) (List.map nat_of_int bps)) in
+  let acc = ref [] and ok = ref true in
+  String.iteri (fun i ch ->
+      if !ok then
+        match M.step cf !s (if ch = 'C' then M.C else M.P) with
+        | None -> ok := false
+        | Some s' ->
+          (match !s.M.c_pc, s'.M.c_pc with
+           | M.CIdle, M.RLoad (d, _, _) -> acc := (i, d) :: !acc
+           | _ -> ());
+          s := s') sched;
+  List.rev !acc
 
 (* ---- main ---------------------------------------------------------------------------------- *)
 let () =
@@ -250,6 +270,18 @@ let () =
             if undisc && !fixed then begin incr known; Printf.printf "KNOWN\tundisciplined\t%s\t%s\n" case impl end
             else report "spec" case impl "run() returns: every delivered event had been received when it was called"
           end;
+          (* the real threads left the schedule and, running freely, the controller never got out of run() *)
+          (let pre = "TIMEOUT-STUCK@r_" in
+           if String.length status >= String.length pre && String.sub status 0 (String.length pre) = pre then begin
+             let itr = (match String.split_on_char '|' impl with t :: _ -> String.split_on_char ' ' t | [] -> []) in
+             let etr = (match String.split_on_char '|' expected with t :: _ -> String.split_on_char ' ' t | [] -> []) in
+             let nloads = List.length (List.filter (fun x -> x = "C:r_load") itr) in
+             match List.nth_opt (run_entries !fixed (int_of_string cap) c (ints bps) cmds sched) (nloads - 1) with
+             | Some (i, true) ->
+               let rec agree k = k > i || (List.nth_opt itr k = List.nth_opt etr k && List.nth_opt itr k <> None && agree (k + 1)) in
+               if agree 0 then report "spec" case impl "run() returns: every delivered event had been received when it was called (threads left the model's schedule; run freely for 1.5 s)"
+             | _ -> ()
+           end);
           (match spec_oracle c (ints bps) cmds impl expected with
            | Some m -> report "spec" case impl m
            | None -> ());
